@@ -165,6 +165,7 @@ def modifier_table(pred=None):
             [M([m, "A"], ["X"]), M(["B"], [m, "Y"], S(["E"]))],                       # the modifier as a trigger key and as an output
             [M([m, "A"], [m, "B"], N, [m]), M([m, "B"], ["Y"]), M(["C"], ["C"], D)],  # the modifier absorbed
             [M(["C"], [m, "A"], S([m, "E"])), M([other, m, "B"], ["D"])],
+            [M(["C"], []), M(["C", "A"], [m]), M(["B"], ["X"])],                        # a layer key and a chord on it that is a modifier-remapping: the layer key released first
         ]
         for si, lay in enumerate(shapes):
             if pred is None or pred(lay):
@@ -195,6 +196,10 @@ def per_key(keys, pred=None, maxheld=2):
             lay = lay + [M([partner, "B"], ["E"])]
             alph = alph + [partner]
         jobs.append({"id": "key-%s" % K, "layout": lay, "keys": alph, "maxheld": maxheld})
+        # the key as a trigger only (never an output): alone and as the last key of a chord
+        lay2 = [M([K], ["D"]), M(["A", K], ["B"])]
+        if pred is None or pred(lay2):
+            jobs.append({"id": "key2-%s" % K, "layout": lay2, "keys": ["A", K, "C"], "maxheld": 2})
     return jobs
 
 
